@@ -22,17 +22,22 @@ def eval_call(ev: Ev, n: ast.Call) -> Val:
 	c = ev.fn.contract
 	if c is not None and txt in c.rewrites and ev.mode == 'code':
 		ev.eng.used_rewrites.add(f'{ev.fn.label}: {txt}  ~>  {c.rewrites[txt]}')
-		sub = Ev(ev.eng, ev.fn, ev.st, ev.oracle, 'spec', ev.old, ev.guards)
-		return sub.eval(ast.parse(c.rewrites[txt], mode='eval').body)
+		return ev.eval(ast.parse(c.rewrites[txt], mode='eval').body)
 	f = n.func
 	if isinstance(f, ast.Name):
 		name = f.id
 		if name in ev.st.env and not isinstance(ev.st.env[name], (FuncRef, ClassRef, SpecRef)):
 			raise EngineError(f'call of a value: {txt[:60]} (add a rewrite for this external call)')
 		if name == 'old':
-			if ev.old is None:
+			o = ev.old or getattr(ev.fn, 'entry', None)
+			if o is None:
 				raise EngineError('old() outside a postcondition')
-			sub = Ev(ev.eng, ev.fn, ev.old, ev.oracle, 'spec', None, ev.guards)
+			sub = Ev(ev.eng, ev.fn, o, ev.oracle, 'spec', None, ev.guards)
+			return sub.eval(n.args[0])
+		if name == 'prev':
+			if ev.prev is None:
+				raise EngineError('prev() outside a loop body')
+			sub = Ev(ev.eng, ev.fn, ev.prev, ev.oracle, 'spec', getattr(ev.fn, 'entry', None), ev.guards)
 			return sub.eval(n.args[0])
 		if name in ('all', 'any') and len(n.args) == 1 and isinstance(n.args[0], (ast.GeneratorExp, ast.ListComp)):
 			return quantifier(ev, name, n.args[0])
@@ -146,6 +151,11 @@ def quantifier(ev: Ev, which: str, g: ast.GeneratorExp | ast.ListComp) -> Val:
 		q = z3.Const(fresh_name(f'q_{var}'), z3.IntSort())
 		env[var] = Val(INT, q)
 		rng = z3.And(lo <= q, q < hi)
+	elif isinstance(it, ast.Call) and isinstance(it.func, ast.Name) and it.func.id == 'universe':
+		uty = ev.eng.tenv.parse(it.args[0].value)  # type: ignore[attr-defined]
+		q = z3.Const(fresh_name(f'q_{var}'), uty.sort())  # type: ignore[union-attr]
+		env[var] = Val(uty, q)
+		rng = z3.BoolVal(True)
 	else:
 		seq = ev.eval(it)
 		if isinstance(seq.ty, TList):
@@ -266,8 +276,12 @@ def b_bool(ev: Ev, n: ast.Call) -> Val:
 
 def b_isinstance(ev: Ev, n: ast.Call) -> Val:
 	v = ev.eval(n.args[0])
-	cls = ev.eval(n.args[1])
 	names: list[str] = []
+	a1 = n.args[1]
+	if isinstance(a1, ast.Name) and a1.id in ev.eng.tenv.aliases and a1.id not in ev.st.env:
+		cls = ClassRef(None, cname=a1.id, module='builtins')
+	else:
+		cls = ev.eval(a1)
 	if isinstance(cls, ClassRef):
 		names = [cls.cname]
 	elif cls.ty is None and isinstance(cls.conc, tuple):
@@ -275,6 +289,9 @@ def b_isinstance(ev: Ev, n: ast.Call) -> Val:
 	else:
 		raise EngineError(f'isinstance second argument {ast.unparse(n.args[1])}')
 	pyty = {'int': INT, 'str': STR, 'float': FLOAT, 'bool': BOOL}
+	for nm in names:
+		if nm not in pyty and nm in ev.eng.tenv.aliases:
+			pyty[nm] = ev.eng.tenv.aliases[nm]
 	if isinstance(v.ty, TUnion):
 		ts = [v.ty.is_a(pyty[nm], v.term) for nm in names if nm in pyty and pyty[nm] in v.ty.alts]
 		return Val(BOOL, z3.Or(*ts) if ts else z3.BoolVal(False))
@@ -675,7 +692,7 @@ def spec_body(ev: Ev, body: list[ast.stmt], env: dict[str, Val], rty: Ty | None 
 	for i, st in enumerate(body):
 		if isinstance(st, ast.Expr) and isinstance(st.value, ast.Constant):
 			continue
-		sub = Ev(ev.eng, ev.fn, State(env, list(ev.st.pc)), ev.oracle, 'spec')
+		sub = Ev(ev.eng, ev.fn, State(env, ev.st.pc), ev.oracle, 'spec')
 		if isinstance(st, ast.Return):
 			assert st.value is not None
 			from .stmts import eval_typed
@@ -718,7 +735,7 @@ def call_external(ev: Ev, name: str, args: list[Val]) -> Val:
 				b = z3.Const(fresh_name(f'may_{exc}'), z3.BoolSort())
 				ev.exit_if(b, exc)
 			else:
-				sub = Ev(ev.eng, ev.fn, State(env, list(ev.st.pc)), ev.oracle, 'spec')
+				sub = Ev(ev.eng, ev.fn, State(env, ev.st.pc), ev.oracle, 'spec')
 				ev.exit_if(sub.truth(ast.parse(cond, mode='eval').body), exc)
 	return Val(rty, f(*[a.term for a in args]))
 
@@ -730,7 +747,7 @@ def call_lemma(ev: Ev, name: str, args: list[Val]) -> Val:
 	ptys = [ev.eng.tenv.parse(a.annotation) for a in lm.node.args.args]
 	args = [ev.coerce(a, t) for a, t in zip(args, ptys)]
 	env = {p: a for p, a in zip(params, args)}
-	sub = Ev(ev.eng, ev.fn, State(env, list(ev.st.pc)), ev.oracle, 'spec')
+	sub = Ev(ev.eng, ev.fn, State(env, ev.st.pc), ev.oracle, 'spec')
 	g = z3.And(*ev.guards) if ev.guards else None
 	for r in lm.requires:
 		t = sub.truth(ast.parse(r, mode='eval').body)
@@ -793,7 +810,10 @@ def bind_params(ev: Ev, fs: source.FuncSrc, args: list[Val], kwargs: dict[str, V
 				env[a.vararg.arg] = Val(lty, seq_of([ev.coerce(x, ety).term for x in pos], lty), items=[(None, x) for x in pos])
 			else:
 				ann = a.vararg.annotation
-				ety2 = ev.eng.ty(ann, fnctx) if ann is not None else STR
+				if fnctx.contract and a.vararg.arg in fnctx.contract.types:
+					ety2 = ev.eng.tenv.parse(fnctx.contract.types[a.vararg.arg]).elem  # type: ignore[union-attr]
+				else:
+					ety2 = ev.eng.ty(ann, fnctx) if ann is not None else STR
 				env[a.vararg.arg] = py_to_val([], TList(ety2))  # type: ignore[arg-type]
 		pos = []
 	if pos:
@@ -808,7 +828,11 @@ def bind_params(ev: Ev, fs: source.FuncSrc, args: list[Val], kwargs: dict[str, V
 
 
 def call_function(ev: Ev, fs: source.FuncSrc, args: list[Val], kwargs: dict[str, Val], recv: Val | None, recv_name: str | None, node: ast.AST | None, want_self: bool = False) -> Val:
-	c = REG.contracts.get((fs.file, fs.qualname))
+	c = None
+	if ev.fn.dyn:
+		c = REG.contracts.get((fs.file, f'{fs.qualname}@{ev.fn.dyn}'))
+	if c is None:
+		c = REG.contracts.get((fs.file, fs.qualname))
 	if ev.mode == 'spec' and (c is None or c.inline_only):
 		raise EngineError(f'contract text calls code function {fs.qualname}')
 	if c is not None and not c.inline_only:
@@ -824,12 +848,14 @@ def self_param(fs: source.FuncSrc) -> str | None:
 
 def modular_call(ev: Ev, fs: source.FuncSrc, c: Contract, args: list[Val], kwargs: dict[str, Val], recv: Val | None, recv_name: str | None, want_self: bool) -> Val:
 	callee = FnCtx(ev.eng, fs, c, ev.fn.prop, ev.fn.depth + 1)
+	if ev.fn.dyn and fs.cls is not None and ev.fn.src is not None and fs.file == ev.fn.src.file:
+		callee.dyn = ev.fn.dyn
 	env = bind_params(ev, fs, args, kwargs, callee)
 	for k, v in c.consts.items():
 		env[k] = py_to_val(v)
 	for g, t in c.ghost_params.items():
 		env[g] = ev.eng.fresh(ev.eng.tenv.parse(t), f'ghost_{g}')  # type: ignore[arg-type]
-	pre = State(dict(env), list(ev.st.pc))
+	pre = State(dict(env), ev.st.pc)
 	sub = Ev(ev.eng, callee, pre, ev.oracle, 'spec')
 	for k, expr in c.lets.items():
 		env[k] = pre.env[k] = sub.eval(ast.parse(expr, mode='eval').body)
@@ -839,15 +865,20 @@ def modular_call(ev: Ev, fs: source.FuncSrc, c: Contract, args: list[Val], kwarg
 		if ev.guards:
 			goal = z3.Implies(z3.And(*ev.guards), goal)
 		ev.eng.oblige(ev.fn, f'pre@call:{fs.qualname}', ev.st, goal, r, line)
-	# exceptional exits, decided on the pre-state
+	# exceptional exits, decided on the pre-state; on such an exit everything `modifies` allows is unknown
+	sp = self_param(fs)
+
+	def havoc_on_exit() -> None:
+		if c.modifies and sp and sp in env and isinstance(env[sp].ty, TRec) and recv_name is not None:
+			ev.st.env[recv_name] = ev.eng.fresh(env[sp].ty, f'{recv_name}_after_raise')
+
 	for exc, cond in c.raises.items():
 		if cond is None:
 			b = z3.Const(fresh_name(f'may_{exc.replace(".", "_")}'), z3.BoolSort())
-			ev.exit_if(b, exc)
+			ev.exit_if(b, exc, havoc_on_exit)
 		else:
-			ev.exit_if(sub.truth(ast.parse(cond, mode='eval').body), exc)
+			ev.exit_if(sub.truth(ast.parse(cond, mode='eval').body), exc, havoc_on_exit)
 	# normal return: havoc what `modifies` allows, assume the postcondition
-	sp = self_param(fs)
 	post_env = dict(env)
 	new_self: Val | None = None
 	if c.modifies and sp and sp in env and isinstance(env[sp].ty, TRec):
@@ -879,7 +910,7 @@ def modular_call(ev: Ev, fs: source.FuncSrc, c: Contract, args: list[Val], kwarg
 		rty2 = env[sp].ty
 	result = ev.eng.fresh(rty2, f'ret_{fs.node.name}') if not isinstance(rty2, TNone) else ev.lift(None)  # type: ignore[arg-type]
 	post_env['result'] = result
-	post = State(post_env, list(ev.st.pc))
+	post = State(post_env, ev.st.pc)
 	sub2 = Ev(ev.eng, callee, post, ev.oracle, 'spec', old=pre)
 	for e in c.ensures:
 		t = sub2.truth(ast.parse(e, mode='eval').body)
@@ -903,8 +934,10 @@ def inline_call(ev: Ev, fs: source.FuncSrc, args: list[Val], kwargs: dict[str, V
 	callee = FnCtx(ev.eng, fs, contract, ev.fn.prop, ev.fn.depth + 1)
 	if ev.fn.contract is not None and contract is None:
 		# loops/rewrites/types of inlined helpers are looked up in the caller's contract too
-		callee.contract = Contract(fs.file, fs.qualname, ev.fn.contract.props, rewrites=ev.fn.contract.rewrites, types=ev.fn.contract.types, inline_only=True)
+		callee.contract = Contract(fs.file, fs.qualname, ev.fn.contract.props, rewrites=ev.fn.contract.rewrites, types={k: v for k, v in ev.fn.contract.types.items() if k != 'return'}, inline_only=True, dispatch=ev.fn.contract.dispatch)
 	callee.want, callee.inputs, callee.inst = ev.fn.want, ev.fn.inputs, ev.fn.inst
+	if ev.fn.dyn and fs.cls is not None and ev.fn.src is not None and fs.file == ev.fn.src.file:
+		callee.dyn = ev.fn.dyn
 	callee.label = ev.fn.label + '>' + fs.qualname.split('.')[-1]
 	env = dict(closure or {})
 	env.update(bind_params(ev, fs, args, kwargs, callee))
